@@ -233,7 +233,7 @@ def run(sc, ctx, monitor, final=None, want_asc=True):
         if is_c:
             st.post = core.snapshot(w.sandbox)
             st.post_asc = scen.all_ascmhl_files(w.sandbox) if want_asc else None
-            ctx.note("cmd", [a.replace(w.base, "<BASE>") if isinstance(a, str) else a for a in op2["argv"]],
+            ctx.note("cmd", [a.replace(w.sandbox, "<SB>") if isinstance(a, str) else a for a in op2["argv"]],
                      res.outcome, [(e[1], e[2], e[3]) for e in res.effects])
             ctx.evaluations += 1
             monitor(ctx, st)
